@@ -14,6 +14,7 @@ import (
 	"time"
 
 	"github.com/rulego/streamsql"
+	"github.com/rulego/streamsql/functions"
 	"github.com/rulego/streamsql/logger"
 	"github.com/rulego/streamsql/types"
 	"github.com/rulego/streamsql/utils/simrt"
@@ -72,6 +73,7 @@ type InstSpec struct {
 	MaxPartitions int         `json:"max_partitions,omitempty"`
 	ReadChan      bool        `json:"read_chan,omitempty"` // a harness goroutine drains ToChannel()
 	ReadChanSlow  int64       `json:"read_chan_slow,omitempty"`
+	Funcs         []string    `json:"funcs,omitempty"` // custom scalar functions registered before Execute (F14)
 }
 
 type Case struct {
@@ -355,6 +357,9 @@ func (e *Env) Setup() error {
 			if spec.MaxPartitions > 0 {
 				opts = append(opts, streamsql.WithAnalyticMaxPartitions(spec.MaxPartitions))
 			}
+			for _, fn := range spec.Funcs {
+				registerTestFunc(fn)
+			}
 			in.S = streamsql.New(opts...)
 			if err := in.S.Execute(spec.SQL); err != nil {
 				setupErr = fmt.Errorf("inst %d: Execute(%q): %v", i, spec.SQL, err)
@@ -466,6 +471,18 @@ func (e *Env) doStop(in *Inst, client int) {
 	e.Logf("stop-ret i=%d c=%d", in.Idx, client)
 }
 
+// registerTestFunc registers the custom scalar function name(x) = 2*x + len(name) (F14).
+func registerTestFunc(name string) {
+	k := float64(len(name))
+	functions.RegisterCustomFunction(name, functions.TypeMath, "verif", "test function", 1, 1,
+		func(ctx *functions.FunctionContext, args []any) (any, error) {
+			if f, ok := toFloat(args[0]); ok {
+				return 2*f + k, nil
+			}
+			return nil, nil
+		})
+}
+
 // StartClients spawns one goroutine per client op list.
 func (e *Env) StartClients() {
 	for ci := range e.C.Clients {
@@ -528,6 +545,10 @@ func (e *Env) execOp(ci, k int, op *Op) {
 		in.Spec.Sinks = append(in.Spec.Sinks, sp)
 		in.sinkCalls = append(in.sinkCalls, 0)
 		e.addSink(in, len(in.Spec.Sinks)-1, &in.Spec.Sinks[len(in.Spec.Sinks)-1])
+	case "regfn":
+		registerTestFunc(op.T)
+	case "unregfn":
+		functions.Unregister(op.T)
 	case "upsert":
 		e.tableUpsert(in, op, rec)
 	case "delete":
